@@ -758,6 +758,11 @@ func (s *v4Server) reserveLease(mac net.HardwareAddr) (l *dhcpsvc.Lease, err err
 		// Don't copy into the previous address, since its length may differ.
 		s.leases[i].HWAddr = slices.Clone(mac)
 
+		// The lease is only offered to the new client.  Make it look like any
+		// other offer, since a lease with an expiration time is considered to
+		// have been acknowledged when the leases are loaded from the database.
+		s.leases[i].Expiry = time.Time{}
+
 		return s.leases[i], nil
 	}
 
